@@ -5,6 +5,9 @@
    correspondence check evaluates on the implementation's versions/compactions imply the hypotheses. *)
 From GL Require Import Base.Order Codec.IKey Codec.BytesCmp Codec.BytesCmpProofs Lsm.Lsm Lsm.Compact Lsm.LsmProofs
   Lsm.CompactProofs Lsm.History Lsm.HistoryProofs Lsm.ReorgProofs Lsm.WfProofs Lsm.CertProofs Gen.ConstsOk.
+From GL Require Import Codec.Table Codec.TableCheck Codec.TblCrc Lsm.ReadPath Lsm.ReadPathMem Lsm.ReadPathProofs
+  Gen.Inst Gen.InstTbl Gen.InstMem Gen.BloomInst Gen.ConstsOkMem.
+From GL Require Mem.MemDB.
 
 (* (1) DB.get / version.get on any well-formed layout (write buffer, frozen buffer, transaction tables,
    level 0, sorted levels) returns the newest entry of k with seq <= s among all stored entries —
@@ -95,4 +98,147 @@ Example C01_nonvacuous_history :
 Proof.
   split; [|split; vm_compute; reflexivity].
   cbn [hops_ok hop_ok]. repeat split; try (repeat constructor; vm_compute; congruence).
+Qed.
+
+(* (5) The read path at BYTE level.  Lsm/ReadPath.v db_get_bytes is DB.Get as the code computes it: memGet =
+   memdb.Find with the probe key (ukey, seq, keyTypeSeek) on the array-encoded skip list (live, then frozen),
+   then version.get: level 0 in slice order among the tables whose recorded [imin.ukey, imax.ukey] contains the
+   key, keeping the hit with the largest sequence number; deeper levels by sort.Search on imax and the imin
+   test; every table consulted through table.Reader.Find on the BYTES of its file (footer, metaindex, index
+   block seek, the filter block asked first about the user key, data block seek, fall through to the next
+   block); user-key equality test after each Find; a deletion marker ends the search with ErrNotFound.
+   For every comparer satisfying the contract and every well-formed byte state — the memdbs satisfy the
+   representation invariant of property C14 and hold stored keys only; every table file passes the executable
+   format check of property C13 (table_check) and has decodable keys, the recorded bounds, and a filter that
+   does not hide a stored user key; the abstraction (the sorted entry lists of the buffers and tables) is a
+   well-formed L1 layout — every read of a real byte-string key at a sequence number <= keyMaxSeq computes
+   exactly what the L1 model's lsm_get computes on the abstraction (no panic, no error, fuel suffices). *)
+Theorem C01_read_path_refines :
+  forall c, comparer_ok c -> forall p, kparams_ok p -> (keyTypeSeek p <= keyTypeVal p)%N ->
+  forall mp, MemDB.mparams_ok mp ->
+  forall tp crc decompress fname ufc verify ri k s, wf_bytes k -> (s <= keyMaxSeq p)%N ->
+  forall st, wf_bstate c p mp tp crc decompress fname ufc verify ri st ->
+  db_get_bytes c p mp tp crc decompress fname ufc verify st k s =
+  BRes (lsm_get c p (abs c mp tp crc decompress fname ufc verify ri st) k s).
+Proof. exact read_path_refines. Qed.
+Print Assumptions C01_read_path_refines.
+
+(* ... hence (with (1)) it returns the newest entry of k with seq <= s among all stored entries, wherever it is
+   stored: in a memdb, in a level-0 file, in a deeper file. *)
+Theorem C01_get_correct_bytes :
+  forall c, comparer_ok c -> forall p, kparams_ok p -> (keyTypeSeek p <= keyTypeVal p)%N ->
+  forall mp, MemDB.mparams_ok mp ->
+  forall tp crc decompress fname ufc verify ri k s, wf_bytes k -> (s <= keyMaxSeq p)%N ->
+  forall st, wf_bstate c p mp tp crc decompress fname ufc verify ri st ->
+  db_get_bytes c p mp tp crc decompress fname ufc verify st k s =
+  BRes (group_res p (newest c k s (all_entries (abs c mp tp crc decompress fname ufc verify ri st)) None)).
+Proof. exact get_correct_bytes. Qed.
+Print Assumptions C01_get_correct_bytes.
+
+(* ... and the filter setting is invisible: two settings (no filter, another policy, another reading of the
+   filter block) under which the state is well-formed answer every read alike. *)
+Theorem C01_filter_setting_irrelevant :
+  forall c, comparer_ok c -> forall p, kparams_ok p -> (keyTypeSeek p <= keyTypeVal p)%N ->
+  forall mp, MemDB.mparams_ok mp ->
+  forall tp crc decompress verify ri fname fname' ufc ufc' st k s, wf_bytes k -> (s <= keyMaxSeq p)%N ->
+  wf_bstate c p mp tp crc decompress fname ufc verify ri st ->
+  wf_bstate c p mp tp crc decompress fname' ufc' verify ri st ->
+  db_get_bytes c p mp tp crc decompress fname ufc verify st k s =
+  db_get_bytes c p mp tp crc decompress fname' ufc' verify st k s.
+Proof. exact filter_setting_irrelevant. Qed.
+Print Assumptions C01_filter_setting_irrelevant.
+
+(* ... and against the plain map of (2): when the memdbs and table files hold exactly the stored collection of an
+   admissible history, DB.Get computed on the bytes at the history's current sequence number is the plain
+   map's answer, and at every protected sequence number the answer judged on everything ever written. *)
+Theorem C01_get_is_map_bytes :
+  forall c, comparer_ok c -> forall p, kparams_ok p -> (keyTypeSeek p <= keyTypeVal p)%N ->
+  forall mp, MemDB.mparams_ok mp ->
+  forall tp crc decompress fname ufc verify ri st ops k,
+  wf_bstate c p mp tp crc decompress fname ufc verify ri st -> wf_bytes k ->
+  hops_ok c p h_init ops -> h_store (hrun ops) = all_entries (abs c mp tp crc decompress fname ufc verify ri st) ->
+  (h_seq (hrun ops) <= keyMaxSeq p)%N ->
+  bapi (db_get_bytes c p mp tp crc decompress fname ufc verify st k (h_seq (hrun ops))) =
+  Some (a_get c k (map_of c p ops)).
+Proof. exact get_is_map_bytes. Qed.
+Print Assumptions C01_get_is_map_bytes.
+
+Theorem C01_history_correct_bytes :
+  forall c, comparer_ok c -> forall p, kparams_ok p -> (keyTypeSeek p <= keyTypeVal p)%N ->
+  forall mp, MemDB.mparams_ok mp ->
+  forall tp crc decompress fname ufc verify ri st ops k s,
+  wf_bstate c p mp tp crc decompress fname ufc verify ri st -> wf_bytes k ->
+  hops_ok c p h_init ops -> h_store (hrun ops) = all_entries (abs c mp tp crc decompress fname ufc verify ri st) ->
+  protected (hrun ops) s -> (s <= keyMaxSeq p)%N ->
+  bapi (db_get_bytes c p mp tp crc decompress fname ufc verify st k s) = Some (hist_get c p (hrun ops) k s).
+Proof. exact history_correct_bytes. Qed.
+Print Assumptions C01_history_correct_bytes.
+
+(* the boolean certificate the correspondence run evaluates on the abstraction of every dumped byte state *)
+Theorem C01_wf_fullb_sound : forall c, comparer_ok c -> forall p st,
+  wf_fullb c p st = true -> wf_state c p st.
+Proof. exact wf_fullb_sound. Qed.
+Print Assumptions C01_wf_fullb_sound.
+
+(* Non-vacuity at byte level: three table files WRITTEN BY GOLEVELDB (NoCompression, block size 40, restart
+   interval 2, bloom filter 10 bits per key, FilterBaseLg 5; taken from a DB after: Put b c d f, CompactRange,
+   Put c, Delete d, Put e, reopen, Put c g, reopen, Put a, Delete g) — level 0 = files 8 (newest) and 5 with
+   overlapping ranges, level 1 = file 4 with two data blocks — and the write buffer built by the memdb
+   model's own Put.  The state is well-formed (so the theorems apply to it), with the bloom filter consulted
+   (property C16's model) and with no filter configured, and db_get_bytes, evaluated, returns what the
+   real DB returned: a from the buffer, c from the newest level-0 file although older values sit in file 5
+   and in level 1, b and f from level 1, d hidden by the deletion marker in file 5, g hidden by the marker in
+   the buffer, e from file 5; at sequence number 8 (before the second reopen) c is c2 and g is absent; at 4 d
+   is d1. *)
+From Coq Require Import String.
+Definition ex_file8 : tfile := mkTF 8 (unhex "630109000000000000"%string) (unhex "67010a000000000000"%string)
+  (unhex "000902630109000000000000633300090267010a00000000000067330000000001000000006b85060f020a0c14504080800600000000090000000500c55eddb500210266696c7465722e6c6576656c64622e4275696c74696e426c6f6f6d46696c746572291200000000010000000053af85db00090267010a000000000000002400000000010000000038479861402e731600000000000000000000000000000000000000000000000000000000000000000000000057fb808b247547db"%string).
+Definition ex_file5 : tfile := mkTF 5 (unhex "630105000000000000"%string) (unhex "650107000000000000"%string)
+  (unhex "00090263010500000000000063320009006400060000000000000009026501070000000000006532000000001a00000002000000004c075ecc020a0c18e02080000600000000090000000500768ea2f800210266696c7465722e6c6576656c64622e4275696c74696e426c6f6f6d46696c7465723912000000000100000000326a53e60009026501070000000000000034000000000100000000e6f3e89c502e830116000000000000000000000000000000000000000000000000000000000000000000000057fb808b247547db"%string).
+Definition ex_file4 : tfile := mkTF 4 (unhex "620101000000000000"%string) (unhex "660104000000000000"%string)
+  (unhex "000902620101000000000000623100090263010200000000000063310009026401030000000000006431000000001c000000020000000004f67afd0009026601040000000000006631000000000100000000900df521122a4c9860218200064000010104001040060000000009000000120000000500441ab79300210266696c7465722e6c6576656c64622e4275696c74696e426c6f6f6d46696c746572561f000000000100000000102a39ac00090264010300000000000000360009026601040000000000003b16000000000e00000002000000007f35b5527a2ead0128000000000000000000000000000000000000000000000000000000000000000000000057fb808b247547db"%string).
+Definition ex_mem_puts : list (bytes * bytes * N) :=
+  [([97; 1; 12; 0; 0; 0; 0; 0; 0], [97; 52], 1); ([103; 0; 13; 0; 0; 0; 0; 0; 0], [], 2)]%N.
+Definition ex_bstate : bstate :=
+  mkBS (mem_of bytewise mp ex_mem_puts) None [[ex_file8; ex_file5]; [ex_file4]].
+Definition ex_fname : option bytes := Some (unhex "6c6576656c64622e4275696c74696e426c6f6f6d46696c746572"%string).
+Definition ex_nodec (_ : bytes) : option bytes := None.
+Definition ex_get (fname : option bytes) (k : N) (s : N) : option (option bytes) :=
+  bapi (db_get_bytes bytewise kp mp tblp tbl_crc ex_nodec fname (bloom_ufc bp (BinInt.Z.of_N 10)) true ex_bstate [k] s).
+
+Lemma ex_mem_keys :
+  match mem_of bytewise mp ex_mem_puts with Some d => mem_keys_okb kp mp d | None => false end = true.
+Proof. vm_compute. reflexivity. Qed.
+
+Lemma ex_wf fname : (fname = ex_fname \/ fname = None) ->
+  wf_bstate bytewise kp mp tblp tbl_crc ex_nodec fname (bloom_ufc bp (BinInt.Z.of_N 10)) true 2 ex_bstate.
+Proof.
+  intros Hf. constructor.
+  - intros d H. split.
+    + apply (mem_of_inv bytewise bytewise_ok mp mp_ok ex_mem_puts d); [|exact H].
+      apply Forall_cons; [split; vm_compute; congruence|]. apply Forall_cons; [split; vm_compute; congruence|]. apply Forall_nil.
+    + cbn [bs_mem ex_bstate] in H. pose proof ex_mem_keys as K. rewrite H in K. exact K.
+  - intros d H. discriminate.
+  - destruct Hf as [-> | ->];
+      (apply Forall_cons; [apply Forall_cons; [vm_compute; reflexivity | apply Forall_cons; [vm_compute; reflexivity | apply Forall_nil]]
+                          | apply Forall_cons; [apply Forall_cons; [vm_compute; reflexivity | apply Forall_nil] | apply Forall_nil]]).
+  - apply (wf_fullb_sound bytewise bytewise_ok kp). destruct Hf as [-> | ->]; vm_compute; reflexivity.
+Qed.
+
+Example C01_bytes_nonvacuous :
+  wf_bstate bytewise kp mp tblp tbl_crc ex_nodec ex_fname (bloom_ufc bp (BinInt.Z.of_N 10)) true 2 ex_bstate /\
+  wf_bstate bytewise kp mp tblp tbl_crc ex_nodec None (bloom_ufc bp (BinInt.Z.of_N 10)) true 2 ex_bstate /\
+  (keyTypeSeek kp <= keyTypeVal kp)%N /\ MemDB.mparams_ok mp /\
+  map (fun k => ex_get ex_fname k 13) [97; 98; 99; 100; 101; 102; 103; 104]%N =
+    [Some (Some [97; 52]); Some (Some [98; 49]); Some (Some [99; 51]); Some None; Some (Some [101; 50]);
+     Some (Some [102; 49]); Some None; Some None]%N /\
+  map (fun k => ex_get None k 13) [97; 98; 99; 100; 101; 102; 103; 104]%N =
+  map (fun k => ex_get ex_fname k 13) [97; 98; 99; 100; 101; 102; 103; 104]%N /\
+  ex_get ex_fname 99 8 = Some (Some [99; 50])%N /\ ex_get ex_fname 103 8 = Some None /\
+  ex_get ex_fname 100 4 = Some (Some [100; 49])%N /\ ex_get ex_fname 99 1 = Some None.
+Proof.
+  split; [apply ex_wf; left; reflexivity|]. split; [apply ex_wf; right; reflexivity|].
+  split; [vm_compute; discriminate|]. split; [exact mp_ok|].
+  split; [vm_compute; reflexivity|]. split; [vm_compute; reflexivity|]. split; [vm_compute; reflexivity|].
+  split; [vm_compute; reflexivity|]. split; vm_compute; reflexivity.
 Qed.
